@@ -28,6 +28,8 @@ def sig(f):
         return "accept:takes-wrong-chunk-for-referenced-one"
     if kind == "accept_ret" and ev.get("res") == "err":
         return "accept:fails"
+    if kind == "accept_ret" and len(set(ev.get("chunks", []))) != len(ev.get("chunks", [])):
+        return "accept:chunk-twice-in-executed-block"
     if kind == "accept_ret":
         return "accept:chunks-differ-from-certificates"
     return "%s:unexplained" % kind
@@ -55,6 +57,10 @@ def run(ctx):
             ctx.cov["design_step_detects_rate_limited_fetch"] = hit
             if not hit:
                 raise vlib.Infra("sensitivity: the rate-limited fetch variant no longer violates Served:\n" + r["out"][-1500:])
+            r = vlib.tlc_mc(ctx, "DSMRNodeAccept_MC", "DSMRNodeAccept_MC_appendfirst.cfg", label="appendfirst", expect_violation=True)
+            ctx.cov["design_step_detects_append_before_store"] = bool(r["violated"])
+            if not r["violated"]:
+                raise vlib.Infra("sensitivity: appending the response before storing it no longer violates PrefixExact")
     scenarios = ctx.pick(120, 2000)
     rc, out = vlib.go_driver(ctx, PKG, "^TestVerifAcceptRecord$", files=FILES, env={"VERIF_SCENARIOS": scenarios}, timeout=1500)
     if rc != 0:
@@ -94,12 +100,14 @@ def run(ctx):
     # is already at the rule's limit, and every pre-block store over the limit (must be 0: the driver asks CheckRateLimit)
     ctx.cov["fetches_with_producer_at_rate_limit"] = 0
     ctx.cov["stores_over_rate_limit"] = 0
+    ctx.cov["fetches_retried_after_local_store_failure"] = 0
     orig = vlib.tlc_trace
 
     def capture(*a, **k):
         r = orig(*a, **k)
         ctx.cov["fetches_with_producer_at_rate_limit"] += len(set(re.findall(r'FETCH_OVER_LIMIT", (\d+)', r["out"])))
         ctx.cov["stores_over_rate_limit"] += len(set(re.findall(r'STORE_OVER_LIMIT", (\d+)', r["out"])))
+        ctx.cov["fetches_retried_after_local_store_failure"] += len(set(re.findall(r'STORE_FAIL_RETRY", (\d+)', r["out"])))
         return r
     vlib.tlc_trace = capture
     try:
@@ -124,6 +132,8 @@ def run(ctx):
     ctx.cov["scenarios_with_small_rate_limit"] = tight
     if ctx.only is None and not fails and not ctx.cov["fetches_with_producer_at_rate_limit"]:
         raise vlib.Infra("vacuous: no chunk was fetched while its producer was at the rate limit on the acceptor")
+    if ctx.only is None and not fails and not ctx.cov["fetches_retried_after_local_store_failure"]:
+        raise vlib.Infra("vacuous: no fetched chunk met a transient store failure on the acceptor")
     for f in files:
         os.remove(f)
     vlib.report_failures(ctx, fails, describe)
@@ -134,7 +144,8 @@ def run(ctx):
                        "(certs, local set, script, request kinds) sequences. Half of the scenarios run with "
                        "GetMaxAccumulatedProducerChunkWeight = 1-3 chunks, 70% of the chunks by one producer and 0-2 further pending "
                        "chunks of it that no block references; chunks are pre-stored only when CheckRateLimit allows (as the "
-                       "signature-request path does), so referenced chunks are fetched while their producer is at the limit")
+                       "signature-request path does), so referenced chunks are fetched while their producer is at the limit. In 40% of "
+                       "the Accept calls the acceptor's chunk database refuses the 1st or 2nd pending-record Put of a fetched chunk once")
     ctx.assumptions += ["scripts that never serve the valid chunk are excluded (Accept retries forever by design)",
                         "chunk expiries lie in [block timestamp, parent timestamp + validity window], which is what a quorum of honest "
                         "validators can have signed when the block is built; Accept hands fetched chunks to the ChunkVerifier whose "
